@@ -138,6 +138,12 @@ class Tokenizer:
                 if isinstance(sub, ast.Assign) and any(isinstance(t, ast.Name) and t.id == var for t in sub.targets):
                     if pred is None or pred(sub.value):
                         out.add(self.cfg.node_of_stmt[id(sub)])
+                # a, b = x, y   assigns a = x and b = y
+                if isinstance(sub, ast.Assign) and len(sub.targets) == 1 and isinstance(sub.targets[0], ast.Tuple) and isinstance(sub.value, ast.Tuple) and \
+                        len(sub.targets[0].elts) == len(sub.value.elts):
+                    for t, v in zip(sub.targets[0].elts, sub.value.elts):
+                        if isinstance(t, ast.Name) and t.id == var and (pred is None or pred(v)):
+                            out.add(self.cfg.node_of_stmt[id(sub)])
                 if isinstance(sub, ast.AugAssign) and isinstance(sub.target, ast.Name) and sub.target.id == var and pred is None:
                     out.add(self.cfg.node_of_stmt[id(sub)])
         return out
@@ -148,7 +154,12 @@ class Tokenizer:
         for s in stmts:
             for sub in ast.walk(s):
                 if isinstance(sub, ast.AugAssign) and isinstance(sub.target, ast.Name) and sub.target.id == self.TEXT and isinstance(sub.op, ast.Add):
-                    out.append((self.cfg.node_of_stmt[id(sub)], sub.value))
+                    # a conditional expression appends one of its arms
+                    arms = [sub.value]
+                    while any(isinstance(a, ast.IfExp) for a in arms):
+                        arms = [x for a in arms for x in ((a.body, a.orelse) if isinstance(a, ast.IfExp) else (a,))]
+                    for a in arms:
+                        out.append((self.cfg.node_of_stmt[id(sub)], a))
                 elif isinstance(sub, ast.Assign) and any(isinstance(t, ast.Name) and t.id == self.TEXT for t in sub.targets):
                     v = sub.value
                     if isinstance(v, ast.BinOp) and isinstance(v.op, ast.Add):
@@ -299,8 +310,13 @@ def tok_rules(repo, tier="quick"):
     for st in body:
         for sub in ast.walk(st):
             if isinstance(sub, ast.Compare) and len(sub.ops) == 1 and isinstance(sub.ops[0], ast.In) and isinstance(sub.left, ast.BinOp) and \
-                    isinstance(sub.left.op, ast.Add) and isinstance(sub.left.left, ast.Name) and sub.left.left.id == T.token and "peek" in ast.unparse(sub.left.right):
-                look = sub
+                    isinstance(sub.left.op, ast.Add) and isinstance(sub.left.left, ast.Name) and sub.left.left.id == T.token:
+                ahead = sub.left.right
+                if isinstance(ahead, ast.Name) and id(ahead) in cfg.owner:
+                    # a temporary holding the peeked character
+                    ahead = resolve_ast(fl, ahead, cfg.owner[id(ahead)])[0]
+                if "peek" in ast.unparse(ahead):
+                    look = sub
     if look is None:
         obs.append(ob_undecided("TOK.T3-atom", fi, T.branches[bare][2], construct="two-letter element look-ahead", instance="bare:two-letter",
                                 reason="cannot find the `token + iter.peek() in <two-letter elements>` test"))
@@ -391,14 +407,22 @@ def tok_rules(repo, tier="quick"):
         test, body, node = T.branches[sl.pop()]
         keys = set()
         conditional = set()
+        st_loops = lambda stmt: [x for x in ast.walk(stmt) if isinstance(x, ast.For)]
         for st in body:
             for sub in ast.walk(st):
                 if isinstance(sub, ast.Assign) and isinstance(sub.targets[0], ast.Subscript) and isinstance(sub.targets[0].value, ast.Name) and \
                         sub.targets[0].value.id == T.EZ and isinstance(sub.value, ast.Name) and sub.value.id == T.token and isinstance(sub.targets[0].slice, ast.Name):
-                    keys.add(sub.targets[0].slice.id)
+                    key_name = sub.targets[0].slice.id
+                    # `for key in (a, b): ez[key] = token` stores under a and under b
+                    key_loop = [l for l in st_loops(st) if isinstance(l.target, ast.Name) and l.target.id == key_name and isinstance(l.iter, (ast.Tuple, ast.List))
+                                and all(isinstance(e, ast.Name) for e in l.iter.elts) and len(l.body) == 1 and l.body[0] is sub and not l.orelse]
+                    if key_loop and key_loop[0] is st:
+                        keys |= {e.id for e in key_loop[0].iter.elts}
+                        continue
+                    keys.add(key_name)
                     if sub is not st:
                         # the store sits inside a nested statement (if / loop / try) of the branch
-                        conditional.add(sub.targets[0].slice.id)
+                        conditional.add(key_name)
         if keys == {T.COUNTER, T.PREV} and conditional:
             obs.append(ob_fail("TOK.T6-slash", fi, node, construct="the mark for %s is stored only under a further condition" % sorted(conditional), instance="record:unconditional",
                                reason="every slash marks the atom before it and the atom after it, whatever that atom looks like (bracket atom, "
@@ -535,6 +559,8 @@ def _descriptor_rules(T, bb, darm, dnode):
             extra.append(d)
             continue
         v = d.value
+        if d.path and isinstance(v, (ast.Tuple, ast.List)) and len(d.path) == 1 and isinstance(d.path[0], int) and 0 <= d.path[0] < len(v.elts):
+            v = v.elts[d.path[0]]       # order, pending = pending, None
         gs = guards_of(fi, d.node)
         gtexts = [(t, pol, g) for t, pol, g in gs if g in T.nodes_of(darm) or True]
         if isinstance(v, ast.Constant) and v.value == 1:
